@@ -225,4 +225,16 @@ def _run_match(ctx, spec, rng):
             rows = m.reshape(1, -1) if m.ndim == 1 else m
             ok = all(sorted(int(v) for v in row) == labels for row in rows) and len({frozenset(frozenset(int(v) for v in row[i:i + 2]) for i in range(0, n, 2)) for row in rows}) == ref.double_factorial_odd(n)
             ctx.check("perfect_matchings:exact-once", bool(ok), sig=(n, "labels"), nt=n > 2, mech="perfect_matchings:arbitrary-labels", detail={"n": n})
+    if n % 2 == 0 and 2 <= n <= 8:  # labels that are not integers: the rows must still partition exactly these labels
+        flabels = [0.25 + 0.5 * i for i in range(n)]
+        for arg in (list(flabels), np.array(flabels)):
+            res = _call(ctx, perfect_matchings, arg)
+            if res is None:
+                continue
+            m = np.asarray(res)
+            rows = m.reshape(1, -1) if m.ndim == 1 else m
+            good = all(sorted(float(v) for v in row) == flabels for row in rows)
+            distinct = len({frozenset(frozenset(float(v) for v in row[i:i + 2]) for i in range(0, n, 2)) for row in rows})
+            ctx.check("perfect_matchings:exact-once", bool(good and len(rows) == distinct == ref.double_factorial_odd(n)), sig=(n, "float-labels", isinstance(arg, list)), nt=n > 2,
+                      mech="perfect_matchings:non-integer-labels", detail={"n": n, "rows": len(rows), "distinct": distinct, "labels_kept": bool(good)})
     ctx.sample("perfect_matchings:exact-once", {"n": n, "expected_count": ref.double_factorial_odd(n) if n % 2 == 0 else 0})
